@@ -13,7 +13,10 @@ var zzLadderCalls int
 func zzStubLadder(k, xP *Key) {
 	zzLadderK, zzLadderU = *k, *xP
 	zzLadderCalls++
-	copy(k[:], zzUF("x448.ladder", Size, zzLadderK[:], zzLadderU[:]))
+	// one call per harness (asserted): an arbitrary fresh output is as general as an uninterpreted function
+	var out Key
+	zzFill("x448.ladder.out", &out)
+	*k = out
 }
 
 // clamp = decodeScalar448 of RFC 7748 §5
@@ -49,7 +52,19 @@ func ZZ_C06_x448_Shared_flag() {
 		zzWEq(u, zzWConst("1")),
 		zzWEq(u, zzWConst("726838724295606890549323807888004534353641360687318060281490199180612328166730772686396383698676545930088884461843637361053498018365438")),
 	)
-	zzAssert(zzIff(ok, zzNot(low)), "flag is false exactly for u mod p in {0, 1, p-1}")
+	// C06: "the success flag is false exactly when the output is all zero".  The ladder is an
+	// uninterpreted function here, so the statement is checked for whatever it returns: a zero
+	// output always clears the flag (also for an honest point: 4*l is a clamped scalar), and the
+	// flag is cleared only for a zero output or one of the small-order inputs.  That a small-order
+	// input makes the real ladder return zero is curve theory (stated assumption).
+	var acc byte
+	for i := 0; i < Size; i++ {
+		acc |= shared[i]
+	}
+	zero := acc == 0
+	zzAssert(zzImplies(zero, !ok), "an all-zero output clears the success flag")
+	zzAssert(zzImplies(low, !ok), "the flag is false for u mod p in {0, 1, p-1}")
+	zzAssert(zzImplies(zzAnd(!zero, zzNot(low)), ok), "the flag is false only for a zero output or a small-order input")
 	zzAssert(zzLadderCalls == 1, "ladder called once")
 	zzAssert(zzWCong(zzWLE(zzLadderU[:]), zzWLE(pub0[:]), zzP448), "ladder input ≡ u (mod p)")
 	var ck Key
